@@ -94,7 +94,10 @@ func genCase(r *kit.Rand, idx int, tier string) (out []string) {
 		}
 		h.r.mu.Unlock()
 		sortI64(fl)
-		snap := h.s.VerifState()
+		snap, alive := h.state()
+		if !alive {
+			break
+		}
 		now := h.mc.Mock.Now().Unix()
 		switch k := r.Intn(100); {
 		case k < 22:
